@@ -30,7 +30,11 @@ RandInst(x) ==
   [name |-> IF free = {} THEN <<122, 122>> ELSE RandomElement(free),
    ips |-> SetToSeq(RandomElement(SUBSET Ips)),
    ports |-> SetToSeq(RandomElement(SUBSET Ports)),
-   attrs |-> SetToSeq({<<k, RandomElement(AVals)>> : k \in ks})]
+   \* now and then an entry at the size limit of a character-string: "z=" + 253 bytes = 255, "y=" + 252 = 254
+   attrs |-> SetToSeq({<<k, RandomElement(AVals)>> : k \in ks}
+                      \cup (CASE RandomElement(1 .. 8) = 1 -> {<<<<122>>, <<"some", [i \in 1 .. 253 |-> 121]>>>>}
+                              [] RandomElement(1 .. 8) = 2 -> {<<<<121>>, <<"some", [i \in 1 .. 252 |-> 122]>>>>}
+                              [] OTHER -> {}))]
 
 RandAnn(x) ==
   LET die == RandomElement(1 .. 10) IN
